@@ -133,6 +133,32 @@ func (x *Exec) specType(sc *specScope, name string) types.Type {
 	return x.lookupType(name)
 }
 
+// specLoad loads a location named in a specification. Slice values read from the heap satisfy the Go
+// representation invariant (0 <= len <= cap, ...) in every state; program loads assume it at the load,
+// and a load made only by a specification states it as a global axiom about those (ground) heap terms.
+func (x *Exec) specLoad(sc *specScope, loc *Loc) Value {
+	v := x.load(sc.st, loc)
+	ls := x.c.leaves(v.T)
+	for i, l := range ls {
+		if l.Dims > 0 || l.Kind != 'o' || i == 0 || i+2 >= len(v.L) {
+			continue
+		}
+		base, off, ln, cp := v.L[i-1], v.L[i], v.L[i+1], v.L[i+2]
+		if !isGroundTerm(base) || !isGroundTerm(off) || !isGroundTerm(ln) || !isGroundTerm(cp) {
+			continue
+		}
+		key := "specwf:" + ln.String() + "|" + cp.String()
+		if len(key) > 600 || x.axiomSeen[key] {
+			continue
+		}
+		x.axiomSeen[key] = true
+		max := BVLit64(1<<40, 64)
+		x.extraAxioms = append(x.extraAxioms, BVCmp("bvule", ln, cp), BVCmp("bvule", cp, max), BVCmp("bvule", off, max),
+			IntCmp(">=", base, IntLit(0)), Implies(Eq(base, IntLit(0)), Eq(cp, BVLit64(0, 64))))
+	}
+	return v
+}
+
 func (x *Exec) evalSpec(sc *specScope, e Expr) Value {
 	x.inSpec++
 	defer func() { x.inSpec-- }()
@@ -335,7 +361,7 @@ func (x *Exec) specField(sc *specScope, base Value, name string) Value {
 		}
 		lo, hi := x.c.fieldRange(stt, idx)
 		loc.Lo, loc.Hi, loc.T = loc.Lo+lo, loc.Lo+hi, ft
-		return x.load(sc.st, &loc)
+		return x.specLoad(sc, &loc)
 	}
 	if stt, ok := T.Underlying().(*types.Struct); ok {
 		idx, ft := x.findField(stt, name)
@@ -397,7 +423,7 @@ func (x *Exec) specIndex(sc *specScope, base Value, ie Expr) Value {
 			loc := *x.ptrLoc(base)
 			loc.Idx = append(append([]*Term(nil), loc.Idx...), i)
 			loc.T = at.Elem()
-			return x.load(sc.st, &loc)
+			return x.specLoad(sc, &loc)
 		}
 	}
 	unsup("spec: index on %s", base.T)
